@@ -14,8 +14,10 @@ MANIFEST_ENTRY = dict(engine="VestingLock", design="§4 C08",
 
 DEBIT = ["send", "send_erc20", "multisend", "dao_fund", "gov_deposit", "convert_coin", "fee_cosmos", "fee_eth", "fee_grant",
          "eth_value", "eth_internal", "liquidate", "exec_send", "exec_dao_fund", "exec_gov_deposit", "exec_convert_coin"]
-DELEG = ["delegate", "exec_delegate", "pc_delegate", "pc_delegate_contract", "create_validator", "convert_into_stake"]
+DELEG = ["delegate", "exec_delegate", "pc_delegate", "pc_delegate_contract", "create_validator", "exec_create_validator",
+         "pc_create_validator", "pc_create_validator_contract", "convert_into_stake"]
 OTHER = ["undelegate", "clawback", "merge", "convert_into"]
+REBOND = ["cancel_unbond", "exec_cancel_unbond", "pc_cancel_unbond"]   # driven, no floor: they cannot take coins from the account
 
 
 def _convert(s, seed, fees):
@@ -35,6 +37,8 @@ def _convert(s, seed, fees):
             steps.append({"ev": "slash", "args": {"how": "-"}})
         else:
             args = {"how": a["how"], "amt": a["amt"], "deleg": a["deleg"]}
+            if "at" in a:
+                args["at"] = a["at"]
             if ev in ("fee_cosmos", "fee_eth") and a["how"] == "-":
                 args["amt"] = a["fee"]
             if "grant" in a:
@@ -131,7 +135,7 @@ def run(c):
     c.samples = samples
     c.extra["trace_lines"] = lines
     c.extra["transactions_validated"] = counts["tx"]
-    c.extra["by_path"] = {k: {"accepted": counts["ok:" + k], "refused": counts["refused:" + k]} for k in DEBIT + DELEG + OTHER}
+    c.extra["by_path"] = {k: {"accepted": counts["ok:" + k], "refused": counts["refused:" + k]} for k in DEBIT + DELEG + OTHER + REBOND}
     c.extra["slash_blocks"] = counts["slash-blocks"]
     c.extra["scenarios"] = {"script": counts["scenarios:script"], "random": counts["scenarios:random"], "setup_incomplete": counts["setup-incomplete"]}
     c.extra["conformance_divergence_count"] = ndiv
